@@ -441,6 +441,26 @@ Definition line_build (id : Z) (js : list json) : string :=
         limit of L >= 0 means L, a `query_runtime` limit "h:mm:ss" means that many seconds checked every
         `frequency` >= 1 iterations, `combined` means all of its members.  None = not such a configuration (negative
         numbers, missing or mistyped fields ...): outside the property, whatever the builder does with it. ---- *)
+(* the notation of a time budget, read as the documentation reads it: `h:mm:ss` = one or more decimal digits of hours,
+   exactly two digits of minutes, exactly two digits of seconds, nothing else (no sign, no blanks, no fraction); the
+   budget is h hours + mm minutes + ss seconds (mm, ss above 59 simply count).  Written independently of the model's
+   TM.as_duration: one left-to-right pass that keeps the value and digit count of the current field. *)
+Fixpoint hms_fields (s : string) (cur : BinNums.N) (ndig : nat) (acc : list (BinNums.N * nat))
+  : option (list (BinNums.N * nat)) :=
+  match s with
+  | EmptyString => Some (rev ((cur, ndig) :: acc))
+  | String c r =>
+      let n := nat_of_ascii c in
+      if Nat.eqb n 58 then hms_fields r 0%N 0 ((cur, ndig) :: acc)
+      else if Nat.leb 48 n && Nat.leb n 57 then hms_fields r (cur * 10 + N.of_nat (n - 48))%N (S ndig) acc
+      else None
+  end.
+Definition spec_hms_seconds (s : string) : option BinNums.N :=
+  match hms_fields s 0%N 0 [] with
+  | Some [(h, nh); (m, 2); (sec, 2)] => if Nat.eqb nh 0 then None else Some (h * 3600 + m * 60 + sec)%N
+  | _ => None
+  end.
+
 Fixpoint configured (fuel : nat) (j : json) : option TM.term :=
   match fuel with
   | 0 => None
@@ -457,10 +477,10 @@ Fixpoint configured (fuel : nat) (j : json) : option TM.term :=
           else if String.eqb ty "solution_size" then option_map TM.Size (nonneg "limit")
           else if String.eqb ty "query_runtime" then
             match jget j "limit", nonneg "frequency" with
-            | Some dv, Some f =>
-                match TM.as_duration dv with
-                | Ok d => if N.eqb f 0 then None else Some (TM.Runtime d f)
-                | _ => None
+            | Some (JStr txt), Some f =>
+                match spec_hms_seconds txt with
+                | Some secs => if N.eqb f 0 then None else Some (TM.Runtime (secs * 1000000000)%N f)
+                | None => None
                 end
             | _, _ => None
             end
@@ -483,46 +503,58 @@ Fixpoint configured (fuel : nat) (j : json) : option TM.term :=
       end
   end.
 
-(* one configuration of a case: what the builder returned and, when it built a model, the search observed under it *)
+(* one configuration of a case: the clock script played to it, what the builder returned and, when it built a model,
+   the search observed under it *)
 Definition show_config_entry (unl : obs) (script : list N) (b : res TM.term) (o : option obs) : string :=
   show_built b ++ match b, o with
                   | Ok t, Some ob => " => " ++ show_entry unl (t, script) ob
                   | _, _ => ""
                   end.
-Definition show_config_case (unl : obs) (script : list N) (cs : list (res TM.term * option obs)) : string :=
+Definition show_config_case (unl : obs) (cs : list (list N * res TM.term * option obs)) : string :=
   "U{" ++ show_obs_full unl ++ " tr=" ++ show_list show_pair_nn (ob_trace unl) ++ "} "
-  ++ join " | " (map (fun c => show_config_entry unl script (fst c) (snd c)) cs).
+  ++ join " | " (map (fun c => show_config_entry unl (fst (fst c)) (snd (fst c)) (snd c)) cs).
 
 Section ConfigRun.
   Variable N : Num.
-  Definition line_M_config (fuel : nat) (id : Z) (w : SR.world N) (q : SR.query N) (script : list BinNums.N) (js : list json)
+  Definition line_M_config (fuel : nat) (id : Z) (w : SR.world N) (q : SR.query N) (js : list (json * list BinNums.N))
     : string :=
     line "M" id
       (if SR.has_tie N fuel w q then "TIE"
-       else show_config_case (model_obs N fuel w q (unlimited_term, [])) script
-              (map (fun j => let b := TM.build 50 j in
-                             (b, match b with Ok t => Some (model_obs N fuel w q (t, script)) | _ => None end)) js)).
+       else show_config_case (model_obs N fuel w q (unlimited_term, []))
+              (map (fun js => let b := TM.build 50 (fst js) in
+                              (snd js, b, match b with Ok t => Some (model_obs N fuel w q (t, snd js)) | _ => None end)) js)).
 
-  (* the property, from the JSON configuration and the implementation's observations: the sweep of configured
+  (* the property, from the JSON configuration TEXT and the implementation's observations: the sweep of configured
      models must behave as the configured numbers say (check_case: bounds, explicit error naming the configured
-     limit, unlimited result otherwise, monotone); a well-formed configuration must be accepted by the builder *)
-  Definition line_S_config (id : Z) (w : SR.world N) (q : SR.query N) (script : list BinNums.N) (unl : obs)
-             (cs : list (json * res TM.term * option obs)) : string :=
+     limit, unlimited result otherwise -- in particular under every limit larger than what the search needs --,
+     monotone); a well-formed configuration must be accepted by the builder; and whatever else the builder accepts
+     (negative numbers ...), a search under it ends with the unlimited result or an explicit 'terminated' error,
+     never with a crash *)
+  Definition line_S_config (id : Z) (w : SR.world N) (q : SR.query N) (unl : obs)
+             (cs : list (json * list BinNums.N * res TM.term * option obs)) : string :=
     let vertex := match SR.q_orient N q with SR.OVertex => true | SR.OEdge => false end in
     let maxdeg := TM.deg_bound (SR.q_dir N q) (SR.graph_of N w) in
-    let rejected := existsb (fun c => match configured 50 (fst (fst c)), snd (fst c) with
+    let cfg c := configured 50 (fst (fst (fst c))) in
+    let scr c := snd (fst (fst c)) in
+    let built c := snd (fst c) in
+    let rejected := existsb (fun c => match cfg c, built c with
                                       | Some _, Ok _ => false
                                       | Some _, _ => true
                                       | None, _ => false
                                       end) cs in
-    let es := flat_map (fun c => match configured 50 (fst (fst c)), snd c with
-                                 | Some t, Some o => [((t, script), o)]
+    let crashed := existsb (fun c => match cfg c, snd c with
+                                     | None, Some o => negb (String.eqb (ob_status o) "terminated" || same_result o unl)
+                                     | _, _ => false
+                                     end) cs in
+    let es := flat_map (fun c => match cfg c, snd c with
+                                 | Some t, Some o => [((t, scr c), o)]
                                  | _, _ => []
                                  end) cs in
     line "S" id
       (if rejected then "REJECT(a well-formed configuration was rejected by the builder)"
+       else if crashed then "REJECT(a search under an accepted configuration ended neither with the unlimited result nor with a terminated error)"
        else match check_case vertex maxdeg unl es with
-            | None => show_config_case unl script (map (fun c => (snd (fst c), snd c)) cs)
+            | None => show_config_case unl (map (fun c => (scr c, built c, snd c)) cs)
             | Some why => "REJECT(" ++ why ++ " -- the term shown is the CONFIGURED one)"
             end).
 End ConfigRun.
